@@ -25,6 +25,10 @@ CLAIMED = {
    text='TLC checks the reduction semantics over exact rationals (SFReduce: sum/prod/min/max/mean/median/var/all/any, cumulative and arg functions, skipna propagation) on every 2x2 (thorough 2x3) Frame over {0,1,2,1/2,NaN}, proves that the block-wise two-stage evaluation along axis 1 is sound exactly for the functions the code flags composable (negative control: it fails for mean), and every enumerated call is replayed on the real Frame on every block layout; recorded random calls carry the Frame result AND the per-column/per-row Series results of the real code, and TLC (Trace_C15) checks Independent plus agreement with the rational specification.',
    ref='DESIGN.md section 4 (C15)', note='Floats are mapped to the rational with denominator <= 10**4 they approximate; rounding is out of scope. Object/string/datetime columns are covered by the Independent check only (broad known finding).',
    technique='TLA+ spec SFReduce (exact rationals) model checked with TLC; state dump replayed into the code; recorded calls validated by a TLC trace spec'),
+ 'C12': dict(
+   text='TLC checks on every key sequence of a small scope that the rank-based stable argsort meets the declarative statement (permutation, keys non-decreasing, ties in input order; descending = exact reverse) and that the as-built multi-key route (successive stable sorts, last key first = np.lexsort with reversed keys) equals the lexicographic stable sort (MC_C12); every enumerated sort is replayed on the real containers on every layout; tie-heavy Series/Frames of up to 150 rows (flat and hierarchical labels, 1-3 keys, both axes) are sorted by the real code and TLC (Trace_C12) evaluates the declarative statement on each recorded (keys, permutation, result).',
+   ref='DESIGN.md section 4 (C12)', note='String keys are ordered through a fixed table of the generator alphabet (TLC has no string order). Key functions are not modelled.',
+   technique='TLA+ spec SFSort model checked with TLC; state dump replayed into the code; recorded sorts validated by a TLC trace spec'),
 }
 REASON_TODO = 'not yet built in this round: the specification module for this property is still being written (see DESIGN.md section 9)'
 ALL = ['C%02d' % i for i in range(1, 21)]
